@@ -197,7 +197,7 @@ func (g G) tamper(label string, m *MsgSpec) {
 		case "truncate":
 			m.Tamper = append(m.Tamper, Tamper{Op: "truncate", A: g.intn(lab+".off", 4000)})
 		case "insert-tail":
-			m.Tamper = append(m.Tamper, Tamper{Op: "insert", A: 1 << 30, S: g.pick(lab+".tail", "<!-- x -->", "garbage", "<evil/>", "\n")})
+			m.Tamper = append(m.Tamper, Tamper{Op: "insert", A: -1, S: g.pick(lab+".tail", "<!-- x -->", "garbage", "<evil/>", "\n")})
 		case "relay":
 			m.Tamper = append(m.Tamper, Tamper{Op: "relay", S: g.pick(lab+".rs", "https://evil.example/", "evil-relay", "")})
 		case "b64_flip":
